@@ -10,6 +10,7 @@ import CLModel.Compare.Tree
 import CLModel.Compare.Observer
 import CLModel.Proofs.C10Tree
 import CLModel.Proofs.C10Obs
+import CLModel.Proofs.C10Flag
 import CLModel.Proofs.C10TOrder
 import CLModel.Proofs.C10TContent
 import CLModel.Proofs.C10TText
@@ -312,6 +313,89 @@ theorem list_errors_iff_observers (q : Nat) (flts : List (Option Filter)) (h : L
     refine ⟨cat, f, d, hev, he, ?_⟩
     simp only [ignList, List.all_eq_false]
     exact ⟨flt, hflt, by simpa [ignObs] using hi⟩
+
+/-! ## the error flag of EVERY observer (round 5)
+
+`C10F.FlagIffCounted o` = `o.error = true ↔ 0 < totalErrors o.summary`.  The flag digest of the list AND of every
+project observer is tied to what that observer counted, for arbitrary filters — also for filters that answer "warning"
+or "ignore" for a notification of category `error` (the message text is the entity they are asked about). -/
+
+/-- ONE OPERATION keeps `flag ↔ counted`, whatever the state before, the filter and its verdict: `notify` always,
+    `updateStats` when an `errors` entry (which no caller passes) is positive.  And what a `notify` does exactly: flag
+    and error counter move together, iff the category is `error` and the verdict is not "ignore" — a finding the
+    filter DOWNGRADES to "warning" is still counted as an error and still raises the flag; an ignored one does neither. -/
+theorem flag_step_invariant (o : Obs) :
+    (∀ cat f d o' rv, o.notify cat f d = .ok (o', rv) →
+      (C10F.FlagIffCounted o → C10F.FlagIffCounted o') ∧
+      o'.error = (o.error || (cat.isError && rv != .ignore)) ∧
+      totalErrors o'.summary = totalErrors o.summary + (if cat.isError && rv != .ignore then 1 else 0)) ∧
+    (∀ f st, C10F.EvErrPos (.stats f st) → C10F.FlagIffCounted o → C10F.FlagIffCounted (o.updateStats f st)) := by
+  refine ⟨fun cat f d o' rv h => ⟨fun hf => ?_, C10F.notify_flag_exact h⟩, fun f st hp hf => ?_⟩
+  · exact C10F.step_flag (C10F.step_of_notify h) (C10F.evErrPos_notify cat f d) hf
+  · exact C10F.step_flag (o := o) (ev := .stats f st) rfl hp hf
+
+/-- after any history a fresh `Observer(quiet, filter)` — ANY filter — has its flag up iff it counted an error. -/
+theorem flag_iff_counted (q : Nat) (flt : Option Filter) (h : List Ev) (o' : Obs)
+    (hr : (Obs.init q flt).run h = .ok o') (hp : ErrStatsPos h) :
+    o'.error = true ↔ 0 < totalErrors o'.summary :=
+  C10F.run_flag h _ o' hr hp (C10F.flagIffCounted_init q flt)
+
+/-- after any history through an `ObserverList` the flag of the list itself AND the flag of every project observer
+    say exactly that this observer counted an error (any observers that start with the invariant, e.g. fresh ones). -/
+theorem list_flags_iff_counted (q : Nat) (obs : List Obs) (h : List Ev) (l' : ObsList)
+    (hr : (ObsList.init q obs).run h = .ok l') (hp : ErrStatsPos h) (hobs : ∀ o ∈ obs, C10F.FlagIffCounted o) :
+    (l'.own.error = true ↔ 0 < totalErrors l'.own.summary) ∧
+      ∀ o' ∈ l'.observers, (o'.error = true ↔ 0 < totalErrors o'.summary) :=
+  C10F.list_run_flags h _ l' hr hp (C10F.flagIffCounted_init q none) hobs
+
+/-- EXIT = ERRORS COUNTED, WHICHEVER FLAG `handle` READS: `observers.error` (`C10F.readOwn`, what the code does; `exitStatus`
+    is `exitVia readOwn`) or `any(observer.error for observer in observers)` (`C10F.readAny`) — both give 1 iff
+    `return_zero` is off and the union observer counted an error, for every history without `errors` stats. -/
+theorem exit_reader_independent (q : Nat) (flts : List (Option Filter)) (h : List Ev) (l' : ObsList) (rz : Bool)
+    (hr : (ObsList.init q (flts.map (Obs.init q))).run h = .ok l') (hn : NoErrStats h) :
+    (∀ rz l, exitStatus rz l = C10F.exitVia C10F.readOwn rz l) ∧
+    C10F.readOwn l' = C10F.readAny l' ∧
+    (C10F.exitVia C10F.readOwn rz l' = 1 ↔ rz = false ∧ 0 < totalErrors l'.own.summary) ∧
+    (C10F.exitVia C10F.readAny rz l' = 1 ↔ rz = false ∧ 0 < totalErrors l'.own.summary) := by
+  have hinit : ∀ o ∈ flts.map (Obs.init q), C10F.FlagIffCounted o := by
+    intro o ho
+    obtain ⟨flt, _, rfl⟩ := List.mem_map.1 ho
+    exact C10F.flagIffCounted_init q flt
+  obtain ⟨hown, hobs⟩ := list_flags_iff_counted q _ h l' hr hn.pos hinit
+  have hany := C10F.readAny_iff (l := l') hobs
+  have hlist := list_errors_iff_observers q flts h l' hr hn
+  have hsame : C10F.readOwn l' = C10F.readAny l' := by
+    have : C10F.readOwn l' = true ↔ C10F.readAny l' = true := by
+      rw [hany, ← hlist]; exact hown
+    cases h1 : C10F.readOwn l' <;> cases h2 : C10F.readAny l' <;> simp [h1, h2] at this ⊢
+  refine ⟨fun _ _ => rfl, hsame, ?_, ?_⟩
+  · rw [C10F.exitVia_eq_one]
+    exact and_congr Iff.rfl hown
+  · rw [C10F.exitVia_eq_one, ← hsame]
+    exact and_congr Iff.rfl hown
+
+/-- the semantics of a downgraded / ignored error, computed by the model: one project observer whose filter answers
+    "warning" for the error message counts the error, shows it and has its flag up (exit 1); with "ignore" nothing is
+    counted anywhere and the exit status is 0. -/
+theorem downgraded_error_witness :
+    (((ObsList.init 0 [Obs.init 0 (some (fun _ _ => .warning))]).run
+        [.notify .error ⟨[97], none, some [100, 101]⟩ (.str [109])]).toOption.map (fun l' =>
+      (l'.observers.map (fun o => (o.error, totalErrors o.summary)), l'.own.error, totalErrors l'.own.summary,
+        exitStatus false l', C10F.exitVia C10F.readAny false l')) = some ([(true, 1)], true, 1, 1, 1)) ∧
+    (((ObsList.init 0 [Obs.init 0 (some (fun _ _ => .ignore))]).run
+        [.notify .error ⟨[97], none, some [100, 101]⟩ (.str [109])]).toOption.map (fun l' =>
+      (l'.observers.map (fun o => (o.error, totalErrors o.summary)), l'.own.error, totalErrors l'.own.summary,
+        exitStatus false l', C10F.exitVia C10F.readAny false l')) = some ([(false, 0)], false, 0, 0, 0)) := by
+  constructor <;> decide +kernel
+
+/-- negation witness: reading only the FIRST project observer's flag is not the exit rule — with two projects of which
+    the first ignores the file, the union counted an error (exit 1) but `observers[0].error` is down. -/
+theorem first_reader_witness :
+    ((ObsList.init 0 [Obs.init 0 (some (fun _ _ => .ignore)), Obs.init 0 none]).run
+        [.notify .error ⟨[97], none, some [100, 101]⟩ (.str [109])]).toOption.map (fun l' =>
+      (totalErrors l'.own.summary, exitStatus false l', C10F.exitVia C10F.readAny false l',
+        C10F.exitVia C10F.readFirst false l')) = some (1, 1, 1, 0) := by
+  decide +kernel
 
 /-! ## the text renderings (what the command prints by default)
 
@@ -818,21 +902,38 @@ theorem handle_exit_iff (hw : HWorld) (h : HArgs)
     ∃ st, (handle hw h).final = some st ∧
       (rv = 1 ↔ h.returnZero = false ∧ 0 < totalErrors st.obs.own.summary) ∧
       (0 < totalErrors st.obs.own.summary ↔ ∃ o ∈ st.obs.observers, 0 < totalErrors o.summary) ∧
-      (rv = 0 ∨ rv = 1) := by
+      (rv = 0 ∨ rv = 1) ∧
+      (st.obs.own.error = true ↔ 0 < totalErrors st.obs.own.summary) ∧
+      (∀ o ∈ st.obs.observers, (o.error = true ↔ 0 < totalErrors o.summary)) ∧
+      rv = C10F.exitVia C10F.readOwn h.returnZero st.obs ∧ rv = C10F.exitVia C10F.readAny h.returnZero st.obs := by
   obtain ⟨cfgs, base, locales, projects, w, st, _, hload, hcp, heq⟩ := C10P.handle_returned hret
   rw [heq] at hret ⊢
   obtain ⟨r1, r2, _, _⟩ := C10P.report_returned hret
   have hw' := hcr _ _ _ _ _ _ hload
   obtain ⟨tr, _, t2, t3, _, _⟩ := projects_refine_history w hw' projects _ hw.junk st hcp
   have hn : NoErrStats (tr.flatMap (·.2)) := C10P.trace_noErrStats tr t3
-  refine ⟨st, r2, ?_, ?_, ?_⟩
+  have t2' := t2
+  rw [C10P.mkObservers_eq] at t2'
+  obtain ⟨_, e2, _, _⟩ := exit_reader_independent _ _ _ st.obs h.returnZero t2' hn
+  have hinit : ∀ o ∈ mkObservers projects
+      { locales := locales, l10nBaseDir := base, mergeStage := h.merge, clobberMerge := h.clobber, quiet := h.quiet },
+      C10F.FlagIffCounted o := by
+    intro o ho
+    rw [C10P.mkObservers_eq] at ho
+    obtain ⟨flt, _, rfl⟩ := List.mem_map.1 ho
+    exact C10F.flagIffCounted_init _ flt
+  obtain ⟨f1, f2⟩ := list_flags_iff_counted _ _ _ st.obs t2 hn.pos hinit
+  refine ⟨st, r2, ?_, ?_, ?_, f1, f2, ?_, ?_⟩
   · rw [r1]
     exact exit_iff_errors _ _ _ st.obs h.returnZero t2 hn.pos
-  · rw [C10P.mkObservers_eq] at t2
-    exact list_errors_iff_observers _ _ _ st.obs t2 hn
+  · exact list_errors_iff_observers _ _ _ st.obs t2' hn
   · rw [r1]
     simp only [exitStatus]
     split <;> simp
+  · rw [r1]; rfl
+  · rw [r1]
+    simp only [C10F.exitVia, ← e2]
+    rfl
 
 open ProjM in
 /-- WHAT `handle` PRINTS AND DUMPS.  Whenever `handle` returns: with `--json -` nothing is printed after the lines
@@ -1028,7 +1129,10 @@ theorem composed_exit_iff (hw : HWorld) (h : HArgs)
     ∃ st, (handle hw h).final = some st ∧
       (rv = 1 ↔ h.returnZero = false ∧ 0 < totalErrors st.obs.own.summary) ∧
       (0 < totalErrors st.obs.own.summary ↔ ∃ o ∈ st.obs.observers, 0 < totalErrors o.summary) ∧
-      (rv = 0 ∨ rv = 1) := by
+      (rv = 0 ∨ rv = 1) ∧
+      (st.obs.own.error = true ↔ 0 < totalErrors st.obs.own.summary) ∧
+      (∀ o ∈ st.obs.observers, (o.error = true ↔ 0 < totalErrors o.summary)) ∧
+      rv = C10F.exitVia C10F.readOwn h.returnZero st.obs ∧ rv = C10F.exitVia C10F.readAny h.returnZero st.obs := by
   apply handle_exit_iff hw h _ rv hret
   intro cfgs env full locs projects w hl
   obtain ⟨ext, cwd, enums, existing, md, cs, rfl⟩ := hcomp cfgs env full locs projects w hl
